@@ -67,6 +67,20 @@ def layoutRectOk (G : List (List Pt)) : Bool :=
 /-- every homogeneous point has a last coordinate and it is not zero (else `separate_ctrlpts_weights` raises) -/
 def homOkB (P : List Pt) : Bool := P.all fun p => !p.isEmpty && p.getLastD 0 != 0
 
+/-- the knot vector passed as `knotvector=` to `construct_surface` / `construct_volume` as the knot-vector setter of
+    the new object stores it: `none` = the code raises (`degree=0`: the eagerly evaluated default
+    `knotvector.generate(0, n)` raises; fewer than `degree + 1` inputs: `set_ctrlpts` raises; `knotvector.check` fails:
+    `ValueError`; first knot = last knot: `normalize` divides by zero), otherwise the NORMALISED vector -/
+def storedKv (deg : Nat) (kv : List Rat) (n : Nat) : Option (List Rat) :=
+  if deg = 0 || n < deg + 1 || !knotCheck deg kv n || kv.headD 0 == kv.getLastD 0 then none
+  else some (knotNormalize kv)
+
+/-- `sweep_vector`: `point_translate` zips the point with the vector, so a vector with fewer entries than the points
+    have SPATIAL coordinates (`rat`: the stored points carry the weight) shortens the translated points and
+    `set_ctrlpts` of the swept copy raises -/
+def sweepVecShort (rat : Bool) (P : List Pt) (vec : List Rat) : Bool :=
+  vec.length < (P.headD []).length - (if rat then 1 else 0)
+
 def showOptPt : Option Pt → String
   | some p => showList p
   | none => "None"
@@ -138,6 +152,10 @@ def handleLayout : List String → Option String
       match parseDir d with
       | none => return "ERR"
       | some d =>
+        -- the knot-vector setter validates and normalises `knotvector=` (`storedKv`)
+        match storedKv deg kv cs.length with
+        | none => return "ERR"
+        | some kv =>
         match constructSurface d deg kv cs with
         | some S => if srfOk S && decide (S.ku.length = S.su + S.du + 1) then return showSrf S else return "ERR"
         | none => return "ERR"
@@ -154,6 +172,9 @@ def handleLayout : List String → Option String
       match parseDir d with
       | none => return "ERR"
       | some d =>
+        match storedKv deg kv ss.length with
+        | none => return "ERR"
+        | some kv =>
         match constructVolume d deg kv ss with
         | some V => if volOk V then return showVol V else return "ERR"
         | none => return "ERR"
@@ -169,6 +190,7 @@ def handleLayout : List String → Option String
   | ["sweepc", rat, deg, us, ps, vec] => do
       let deg ← deg.toNat?; let U ← parseList us; let P ← parsePts ps; let vec ← parseList vec
       if vec.isEmpty ∨ P.isEmpty then return "ERR"
+      if sweepVecShort (rat == "1") P vec then return "ERR"
       let tr : Pt → Pt := if rat == "1" then pointTranslateW vec else pointTranslate vec
       match sweepCurve tr (knotGenerate 1 2 true tolMult) { deg := deg, kv := U, pts := P } with
       | some S => return showSrf S
@@ -178,6 +200,7 @@ def handleLayout : List String → Option String
       if vec.isEmpty ∨ !srfOk S then return "ERR"
       -- `Volume.set_ctrlpts` raises on points with fewer than 3 spatial coordinates
       if (S.pts.headD []).length < (if rat == "1" then 4 else 3) then return "ERR"
+      if sweepVecShort (rat == "1") S.pts vec then return "ERR"
       let tr : Pt → Pt := if rat == "1" then pointTranslateW vec else pointTranslate vec
       match sweepSurface tr (knotGenerate 1 2 true tolMult) S with
       | some V => return showVol V
@@ -190,6 +213,9 @@ def handleLayout : List String → Option String
       match parseDir d with
       | none => return "ERR"
       | some d =>
+        match storedKv deg kv cs.length with
+        | none => return "ERR"
+        | some kv =>
         match constructSurfaceRat d deg kv cs with
         | some S => if srfOk S && decide (S.ku.length = S.su + S.du + 1) then return showSrf S else return "ERR"
         | none => return "ERR"
@@ -200,12 +226,16 @@ def handleLayout : List String → Option String
       match parseDir d with
       | none => return "ERR"
       | some d =>
+        match storedKv deg kv ss.length with
+        | none => return "ERR"
+        | some kv =>
         match constructVolumeRat d deg kv ss with
         | some V => if volOk V then return showVol V else return "ERR"
         | none => return "ERR"
   | ["sweepcr", deg, us, ps, vec] => do
       let deg ← deg.toNat?; let U ← parseList us; let P ← parsePts ps; let vec ← parseList vec
       if vec.isEmpty ∨ P.isEmpty ∨ !homOkB P then return "ERR"
+      if sweepVecShort true P vec then return "ERR"
       match sweepCurveRat vec (knotGenerate 1 2 true tolMult) { deg := deg, kv := U, pts := P } with
       | some S => return showSrf S
       | none => return "ERR"
@@ -213,6 +243,7 @@ def handleLayout : List String → Option String
       let vec ← parseList vec; let S ← parseSrf rest
       if vec.isEmpty ∨ !srfOk S ∨ !homOkB S.pts then return "ERR"
       if (S.pts.headD []).length < 4 then return "ERR"
+      if sweepVecShort true S.pts vec then return "ERR"
       match sweepSurfaceRat vec (knotGenerate 1 2 true tolMult) S with
       | some V => return showVol V
       | none => return "ERR"
